@@ -27,123 +27,28 @@ func runC18(c *Ctx) {
 		return
 	}
 	// ---- R18.1
+	analysed := map[*ssa.Function]bool{}
 	for _, x := range []string{"Bytes", "Runes", "Cells"} {
 		ll := c.Func("length", "LongestLine"+x)
 		m := c.Func("length", "String"+x)
 		if ll == nil || m == nil {
 			continue
 		}
-		name := FuncName(ll)
-		var split *ssa.Call
-		nsplit := 0
-		var measures []*ssa.Call
-		wrong := ""
-		eachInstr(ll, func(in ssa.Instruction) {
-			call, ok := in.(*ssa.Call)
-			if !ok {
-				return
+		// delegation to a shared helper that is handed this function's own measure
+		if h, k := delegatesWithMeasure(ll, m); h != nil {
+			r.Check("R18.1", FuncName(ll), "delegates to a shared helper, handing it String"+x+" as the measure", ll.Pos(), true, "")
+			if !analysed[h] {
+				analysed[h] = true
+				par := h.Params[k]
+				c18LongestLine(c, h, lines, "the measure it is given", func(call *ssa.Call) bool { return call.Call.Value == ssa.Value(par) }, func(call *ssa.Call) bool { return false })
 			}
-			f := call.Call.StaticCallee()
-			if f == nil {
-				return
-			}
-			if f == lines {
-				split = call
-				nsplit++
-				return
-			}
-			if funcPkgPath(f) == pkgPath("length") && strings.HasPrefix(f.Name(), "String") {
-				if f != m {
-					wrong = f.Name()
-				}
-				measures = append(measures, call)
-			}
-		})
-		r.Check("R18.1", name, "splits its argument with Lines exactly once", ll.Pos(), nsplit == 1 && split != nil && split.Call.Args[0] == ssa.Value(ll.Params[0]), "")
-		r.Check("R18.1", name, "measures only with String"+x, ll.Pos(), wrong == "" && len(measures) >= 2, "also uses "+wrong)
-		okArgs := true
-		for _, mc := range measures {
-			sec, _ := sectionOfAny(mc.Call.Args[0])
-			if split == nil || sec != ssa.Value(split) {
-				okArgs = false
-			}
+			continue
 		}
-		r.Check("R18.1", name, "every measured string is an element of the split", ll.Pos(), okArgs, "")
-		// returns
-		for i, ret := range returnsOf(ll) {
-			ok, why := false, ""
-			for _, v := range phiClosure(results(ret)[0]) {
-				switch y := v.(type) {
-				case *ssa.Const:
-					k, isK := constInt(y)
-					ok = isK && k == 0
-					why = "constant other than 0"
-				case *ssa.Call:
-					ok = y.Call.StaticCallee() == m
-					why = "not a String" + x + " result"
-				default:
-					ok, why = false, "unexpected result "+v.String()
-				}
-				if !ok {
-					break
-				}
-			}
-			r.Check("R18.1", name, fmt.Sprintf("return #%d is 0, a line's measure, or the running maximum of line measures", i+1), ret.Pos(), ok, why)
-		}
-		// the running maximum is updated only under t > max, in a loop over every line
-		okMax, whyMax := false, "no running maximum found"
-		eachInstr(ll, func(in ssa.Instruction) {
-			phi, ok := in.(*ssa.Phi)
-			if !ok || okMax {
-				return
-			}
-			// phi over {0, itself, a line's measure}; every edge carrying a measure is taken only when measure > phi
-			hasMeasure := false
-			for _, e := range phi.Edges {
-				if e == ssa.Value(phi) {
-					continue
-				}
-				if k, isK := constInt(e); isK && k == 0 {
-					continue
-				}
-				if call, isCall := e.(*ssa.Call); isCall && call.Call.StaticCallee() == m {
-					hasMeasure = true
-					continue
-				}
-				return
-			}
-			if !hasMeasure {
-				return
-			}
-			pr := c.Idx().proverFor(ll)
-			okMax, whyMax = true, ""
-			for k, e := range phi.Edges {
-				call, isCall := e.(*ssa.Call)
-				if !isCall {
-					continue
-				}
-				pred := phi.Block().Preds[k]
-				guarded := false
-				for _, cf := range pr.edgeConds(pred, phi.Block()) {
-					b, isB := cf.Cond.(*ssa.BinOp)
-					if !isB {
-						continue
-					}
-					if (b.Op == token.GTR && b.X == ssa.Value(call) && b.Y == ssa.Value(phi) && cf.Val) || (b.Op == token.LSS && b.Y == ssa.Value(call) && b.X == ssa.Value(phi) && cf.Val) ||
-						(b.Op == token.LEQ && b.X == ssa.Value(call) && b.Y == ssa.Value(phi) && !cf.Val) || (b.Op == token.GEQ && b.Y == ssa.Value(call) && b.X == ssa.Value(phi) && !cf.Val) {
-						guarded = true
-					}
-				}
-				if !guarded {
-					okMax, whyMax = false, "the update of the maximum is not guarded by 'this line's measure > current maximum'"
-				}
-				_, idx := sectionOfAny(call.Call.Args[0])
-				if okMax && !isFullRangeIndex(c, ll, idx, split) {
-					okMax, whyMax = false, "the loop does not visit every line"
-				}
-			}
-		})
-		r.Check("R18.1", name, "the maximum is taken over every line", ll.Pos(), okMax, whyMax)
+		c18LongestLine(c, ll, lines, "String"+x, func(call *ssa.Call) bool { return call.Call.StaticCallee() == m },
+			func(call *ssa.Call) bool {
+				f := call.Call.StaticCallee()
+				return f != nil && f != m && funcPkgPath(f) == pkgPath("length") && strings.HasPrefix(f.Name(), "String")
+			})
 	}
 
 	// ---- R18.2
@@ -158,7 +63,6 @@ func runC18(c *Ctx) {
 			}
 		})
 	}
-	r.Floor("R18.2", "newline splitters", nsplit, 1)
 	cell := c.Named("", "Cell")
 	if cl := c.Method(cell, false, "Lines"); cl != nil {
 		ok := false
@@ -337,6 +241,8 @@ func c18HeightShape(c *Ctx, update, lines *ssa.Function, str, height interface{}
 	switch {
 	case usesLines && !hasCount:
 		r.Check("R18.2", FuncName(update), "height is derived from length.Lines itself", update.Pos(), true, "")
+	case hasCount && lsep == "":
+		r.Note("shape-unrecognised R18.2: length.Lines does not split with strings.Split; agreement of the height formula with it is not evaluated")
 	case hasCount:
 		ok := lsep != "" && usep == lsep && hasSuffixDec == ldrop
 		r.Check("R18.2", FuncName(update), "height formula and Lines agree on the separator and on dropping one trailing empty line", update.Pos(), ok,
@@ -389,4 +295,154 @@ func checkEmitWidth(c *Ctx, rule string) {
 		// layout leaf: LongestLineCells measures with StringCells (R18.1) and StringCells is the only user of the width dependency
 	}
 
+}
+
+// delegatesWithMeasure: fn's body is `return H(s, m)` for a module function H; returns H and the index of the
+// parameter that receives the measure function.
+func delegatesWithMeasure(fn, m *ssa.Function) (*ssa.Function, int) {
+	rets := returnsOf(fn)
+	if len(rets) != 1 || len(fn.Blocks) != 1 {
+		return nil, -1
+	}
+	call, ok := results(rets[0])[0].(*ssa.Call)
+	if !ok {
+		return nil, -1
+	}
+	h := call.Call.StaticCallee()
+	if h == nil || !inModule(h) || len(h.Blocks) == 0 {
+		return nil, -1
+	}
+	k := -1
+	sOK := false
+	for i, a := range call.Call.Args {
+		if f, isF := a.(*ssa.Function); isF && f == m {
+			k = i
+		}
+		if a == ssa.Value(fn.Params[0]) {
+			sOK = true
+		}
+	}
+	if k < 0 || !sOK {
+		return nil, -1
+	}
+	return h, k
+}
+
+// c18LongestLine checks one longest-line function: split once with Lines, measure only with `isMeasure` calls on
+// elements of the split, return 0 / a line's measure / a running maximum guarded by '>' over every line.
+func c18LongestLine(c *Ctx, ll, lines *ssa.Function, measureName string, isMeasure func(*ssa.Call) bool, isOtherMeasure func(*ssa.Call) bool) {
+	r := c.R
+	name := FuncName(ll)
+	var split *ssa.Call
+	nsplit := 0
+	var measures []*ssa.Call
+	wrong := ""
+	eachInstr(ll, func(in ssa.Instruction) {
+		call, ok := in.(*ssa.Call)
+		if !ok {
+			return
+		}
+		if call.Call.StaticCallee() == lines {
+			split = call
+			nsplit++
+			return
+		}
+		if isMeasure(call) {
+			measures = append(measures, call)
+		} else if isOtherMeasure(call) {
+			wrong = calleeDesc(&call.Call)
+			measures = append(measures, call)
+		}
+	})
+	r.Check("R18.1", name, "splits its argument with Lines exactly once", ll.Pos(), nsplit == 1 && split != nil && split.Call.Args[0] == ssa.Value(ll.Params[0]), "")
+	r.Check("R18.1", name, "measures only with "+measureName, ll.Pos(), wrong == "" && len(measures) >= 1, "also uses "+wrong)
+	okArgs := true
+	for _, mc := range measures {
+		args := mc.Call.Args
+		if len(args) == 0 {
+			okArgs = false
+			continue
+		}
+		sec, _ := sectionOfAny(args[len(args)-1])
+		if split == nil || sec != ssa.Value(split) {
+			okArgs = false
+		}
+	}
+	r.Check("R18.1", name, "every measured string is an element of the split", ll.Pos(), okArgs, "")
+	for i, ret := range returnsOf(ll) {
+		ok, why := false, ""
+		for _, v := range phiClosure(results(ret)[0]) {
+			switch y := v.(type) {
+			case *ssa.Const:
+				k, isK := constInt(y)
+				ok = isK && k == 0
+				why = "constant other than 0"
+			case *ssa.Call:
+				ok = isMeasure(y)
+				why = "not a result of " + measureName
+			default:
+				ok, why = false, "unexpected result "+v.String()
+			}
+			if !ok {
+				break
+			}
+		}
+		r.Check("R18.1", name, fmt.Sprintf("return #%d is 0, a line's measure, or the running maximum of line measures", i+1), ret.Pos(), ok, why)
+	}
+	okMax, whyMax := false, "no running maximum found"
+	single := true // a function with only the single fast path has no loop: then the maximum is not applicable
+	eachInstr(ll, func(in ssa.Instruction) {
+		phi, ok := in.(*ssa.Phi)
+		if !ok || okMax {
+			return
+		}
+		hasMeasure := false
+		for _, e := range phi.Edges {
+			if e == ssa.Value(phi) {
+				continue
+			}
+			if k, isK := constInt(e); isK && k == 0 {
+				continue
+			}
+			if call, isCall := e.(*ssa.Call); isCall && isMeasure(call) {
+				hasMeasure = true
+				continue
+			}
+			return
+		}
+		if !hasMeasure {
+			return
+		}
+		single = false
+		pr := c.Idx().proverFor(ll)
+		okMax, whyMax = true, ""
+		for k, e := range phi.Edges {
+			call, isCall := e.(*ssa.Call)
+			if !isCall {
+				continue
+			}
+			pred := phi.Block().Preds[k]
+			guarded := false
+			for _, cf := range pr.edgeConds(pred, phi.Block()) {
+				b, isB := cf.Cond.(*ssa.BinOp)
+				if !isB {
+					continue
+				}
+				if (b.Op == token.GTR && b.X == ssa.Value(call) && b.Y == ssa.Value(phi) && cf.Val) || (b.Op == token.LSS && b.Y == ssa.Value(call) && b.X == ssa.Value(phi) && cf.Val) ||
+					(b.Op == token.LEQ && b.X == ssa.Value(call) && b.Y == ssa.Value(phi) && !cf.Val) || (b.Op == token.GEQ && b.Y == ssa.Value(call) && b.X == ssa.Value(phi) && !cf.Val) {
+					guarded = true
+				}
+			}
+			if !guarded {
+				okMax, whyMax = false, "the update of the maximum is not guarded by 'this line's measure > current maximum'"
+			}
+			args := call.Call.Args
+			_, idx := sectionOfAny(args[len(args)-1])
+			if okMax && !isFullRangeIndex(c, ll, idx, split) {
+				okMax, whyMax = false, "the loop does not visit every line"
+			}
+		}
+	})
+	_ = single
+	r.Check("R18.1", name, "the maximum is taken over every line", ll.Pos(), okMax, whyMax)
 }
